@@ -738,6 +738,14 @@ class Interp:
                 raise Raised(cur_ if cur_ is not None else 're-raise', st.lineno)
             what_ = src(st.exc)
             callee_ = st.exc.func if isinstance(st.exc, ast.Call) else st.exc
+            if isinstance(st.exc, ast.Call) and isinstance(callee_, ast.Name) and getattr(self, 'concrete_context', False):
+                r_ = self.repo.resolve(fr.module, callee_.id) if fr.module is not None and fr.lookup(callee_.id) is None else None
+                if (r_ and r_[0] == 'func') or isinstance(fr.lookup(callee_.id), FuncV):
+                    # ``raise helper(...)``: the helper builds the exception object
+                    ev_ = self.eval(st.exc, fr)
+                    if isinstance(ev_, ExcV):
+                        raise Raised(ev_.what, st.lineno)
+                    raise Undecided('raise of %s (line %d)' % (_prov(ev_), st.lineno))
             if isinstance(callee_, ast.Name):
                 cv_ = fr.lookup(callee_.id)
                 if isinstance(cv_, (TypeV, Prim)) and cv_.name != callee_.id:
@@ -1876,6 +1884,9 @@ class Interp:
             self._wrapper_cls_names = w
         return w
 
+    def _is_package_class(self, name):
+        return any(name in m_.classes for m_ in self.repo.modules.values())
+
     def _class_attr(self, ci, attr):
         """an attribute defined by an assignment in the class body (of the class or a package base class):
         ``name = property(getter)`` -> ('property', getter function);  ``name = <constant expression>`` -> ('value', V)"""
@@ -1965,7 +1976,9 @@ class Interp:
                 for p_, a_ in zip([p for p in init_.params if p != 'self'], args):
                     kwargs[p_] = a_
             return CtxV('ctx', 0, kwargs.get('multiline_strategy'), {k: v for k, v in kwargs.items()})
-        if name == 'PrettyContext' or (getattr(self, 'concrete_classes', None) and name in self.concrete_classes):
+        if name == 'PrettyContext' or (getattr(self, 'concrete_classes', None) and name in self.concrete_classes) or \
+                (getattr(self, 'concrete_context', False) and name not in DOC_CLASSES and name != 'CommentAnnotation'
+                 and name not in self._wrapper_classes() and self._is_package_class(name)):
             ci = None
             for m_ in self.repo.modules.values():
                 if name in m_.classes:
@@ -1979,6 +1992,11 @@ class Interp:
             return obj
         if name == 'object' and not args and not kwargs:
             return OpaqueV()
+        if getattr(self, 'concrete_context', False):
+            import builtins as _bi
+            cls_ = getattr(_bi, name, None)
+            if isinstance(cls_, type) and issubclass(cls_, BaseException):
+                return ExcV('%s(%s)' % (name, ', '.join(_prov(a_) for a_ in args)))
         if name in ('list', 'tuple'):
             if not args:
                 return ListV([]) if name == 'list' else TupleV([])
@@ -2123,6 +2141,11 @@ class Interp:
         h = getattr(self, 'p_' + name, None)
         if h is None and name in ('OrderedDict', 'dict', 'list', 'tuple', 'set', 'frozenset', 'str', 'int', 'float', 'bool') and getattr(self, 'concrete_context', False):
             return self.construct(TypeV(name), list(args), dict(kwargs), node)
+        if h is None and getattr(self, 'concrete_context', False):
+            import builtins as _bi
+            cls_ = getattr(_bi, name, None)
+            if isinstance(cls_, type) and issubclass(cls_, BaseException):
+                return ExcV('%s(%s)' % (name, ', '.join(_prov(a_) for a_ in args)))
         if h is None and name.endswith(('.__repr__', '.__str__')) and getattr(self, 'concrete_context', False) and len(args) == 1 \
                 and isinstance(args[0], Const) and isinstance(args[0].v, (str, bytes, int, float, bool)):
             import builtins as _b
